@@ -1,7 +1,14 @@
 package provider
 
 import (
+	"context"
+	"strings"
+	"sync"
+
 	"github.com/yandex/pandora/components/providers/http/config"
+	"github.com/yandex/pandora/components/providers/http/decoders"
+	"github.com/yandex/pandora/core"
+	"go.uber.org/zap"
 )
 
 // ---- C13: pool configuration values that fit the ammo file badly (a chosen_cases tag that no
@@ -33,5 +40,65 @@ func HarnessC13ProviderConfig() {
 	vCheck("R1.provider.returns", r.done)
 	vCheck("R2.bounded.delivery", len(r.tags) <= 4)
 	vObserve("n", int64(len(r.tags)))
+	vReach("end")
+}
+
+// ---- C13: a raw ammo file whose size lines are fine but whose k-th request is not an HTTP request
+// (garbage bytes of the announced size, or a size line announcing no bytes at all). The entry is
+// consumed the way instances do (Acquire builds the request): it must be rejected - Run ends with
+// an error - and never be taken for the clean end of the ammo (a run that stops early and succeeds).
+func HarnessC13RawUnparsableRequest() {
+	vSpinIsViolation()
+	one := func(p, tag string) string {
+		req := "GET " + p + " HTTP/1.1\r\nHost: h\r\n\r\n"
+		return itoa(len(req)) + " " + tag + "\n" + req
+	}
+	badAt := int(vConcretize(vNondetInt("badAt", 0, 2)))
+	kind := vConcretize(vNondetInt("kind", 0, 2))
+	var parts []string
+	for i := 0; i < 3; i++ {
+		if i != badAt {
+			parts = append(parts, one("/"+string(rune('a'+i)), "t"))
+			continue
+		}
+		switch kind {
+		case 0:
+			g := "garbage" + string(rune(vNondetInt("g", 'a', 'z'))) + "\r\n\r\n" // no request line
+			parts = append(parts, itoa(len(g))+" t\n"+g)
+		case 1:
+			parts = append(parts, "0 t\n") // no request at all
+		default:
+			g := "GET /x HTTP/1.1\r\nbroken header line\r\n\r\n"
+			parts = append(parts, itoa(len(g))+" t\n"+g)
+		}
+	}
+	file := strings.Join(parts, "\n") + "\n"
+	preload := vNondetBool("preload")
+	conf := config.Config{Decoder: config.DecoderRaw, Passes: 1, Preload: preload}
+	d, err := decoders.NewDecoder(conf, strings.NewReader(file))
+	vCheck("D0.decoder.created", err == nil)
+	p := &Provider{Config: conf, Decoder: d, Sink: make(chan decoders.DecodedAmmo)}
+	ctx, cancel := context.WithCancel(context.Background())
+	var runErr error
+	var wg sync.WaitGroup
+	wg.Add(1)
+	go func() {
+		defer wg.Done()
+		runErr = p.Run(ctx, core.ProviderDeps{Log: zap.NewNop()})
+	}()
+	got := 0
+	for {
+		a, ok := p.Acquire()
+		if !ok {
+			break
+		}
+		got++
+		p.Release(a)
+	}
+	cancel() // (the engine cancels the provider once every instance has seen the end of ammo)
+	wg.Wait()
+	vCheck("M6.unparsable.request.not.delivered", got <= 2)
+	vCheck("M6.unparsable.request.is.an.error", runErr != nil && runErr != context.Canceled)
+	vObserve("got", int64(got))
 	vReach("end")
 }
